@@ -33,6 +33,9 @@ type c16Case struct {
 	// returns the next acceptable datagram, forgeries arriving meanwhile), then collects the rest of
 	// the first payload with Read
 	Mixed bool      `json:"mixed,omitempty"`
+	// StartSeq: the sender's record sequence number is advanced to this value before the payloads
+	// are sent (a long-lived connection)
+	StartSeq uint64 `json:"startseq,omitempty"`
 	Sched []c16Item `json:"sched"`
 }
 
@@ -60,6 +63,11 @@ func c16Deliver(c c16Case, withForgeries bool) (got [][]byte, seqs []uint64, fir
 	}
 	var rp *vfPair
 	opt.CliAct = func(cn *Conn) error {
+		if c.StartSeq > 0 {
+			cn.out.Lock()
+			cn.writeSeq = uint48(c.StartSeq)
+			cn.out.Unlock()
+		}
 		capture = true
 		for i := 0; i < c.N; i++ {
 			if _, err := cn.WriteTo(c16Payload(i), cn.RemoteAddr()); err != nil {
@@ -265,10 +273,11 @@ func c16Check(c c16Case) (sig, msg string, nontrivial bool) {
 }
 
 func TestVF_C16_Conn(t *testing.T) {
-	rec := vfRec("C16", "C16b-connection", "established connection; the sender emits N unique payloads which the harness holds back and then delivers according to a generated schedule of originals, duplicates, late replays, reorderings, body bit flips, altered epoch / sequence headers, records sealed under the wrong direction's key and garbage records; receiver through ReadFrom, through Read, and mixed (short Read, ReadFrom, rest through Read); window sizes 0 (default), 32, 64, 128 and the odd values 1, 8, 31, 33, 65, -5; both cipher modes; oracle: delivered subset of sent, at most once, forgeries never delivered, fresh genuine records within the guaranteed window delivered, same deliveries with and without the forgeries; non-trivial = schedule with a duplicate, a replay or a forgery; distinct = the case")
+	rec := vfRec("C16", "C16b-connection", "established connection; the sender emits N unique payloads which the harness holds back and then delivers according to a generated schedule of originals, duplicates, late replays, reorderings, body bit flips, altered epoch / sequence headers, records sealed under the wrong direction's key and garbage records; receiver through ReadFrom, through Read, and mixed (short Read, ReadFrom, rest through Read); window sizes 0 (default), 32, 64, 128 and the odd values 1, 8, 31, 33, 65, -5; both cipher modes; the sender's sequence number starting at 1, 250, 65530, 2^32-5, 2^32+7, 2^40 or 2^48-300; oracle: delivered subset of sent, at most once, forgeries never delivered, fresh genuine records within the guaranteed window delivered, same deliveries with and without the forgeries; non-trivial = schedule with a duplicate, a replay or a forgery; distinct = the case")
 	vfRapid(t, rec, "schedules", vfN(300, 6000), func(t *rapid.T) {
 		c := c16Case{Suite: rapid.SampledFrom([]uint16{ECC_SM4_GCM_SM3, ECC_SM4_CBC_SM3}).Draw(t, "suite"), Window: rapid.SampledFrom([]int{0, 32, 64, 128, 1, 8, 31, 33, 65, -5}).Draw(t, "window"),
-			N: rapid.SampledFrom([]int{3, 8, 40, 100}).Draw(t, "n"), ReadFrom: rapid.Bool().Draw(t, "readfrom"), Mixed: rapid.IntRange(0, 3).Draw(t, "mixed") == 0}
+			N: rapid.SampledFrom([]int{3, 8, 40, 100}).Draw(t, "n"), ReadFrom: rapid.Bool().Draw(t, "readfrom"), Mixed: rapid.IntRange(0, 3).Draw(t, "mixed") == 0,
+			StartSeq: rapid.SampledFrom([]uint64{0, 0, 0, 250, 65530, 1<<32 - 5, 1<<32 + 7, 1 << 40, 1<<48 - 300}).Draw(t, "startseq")}
 		n := rapid.IntRange(1, 2*c.N+4).Draw(t, "len")
 		cursor := 0
 		for i := 0; i < n; i++ {
